@@ -280,3 +280,9 @@ def run(ctx):
             # reply's argument is the received packet
             a0 = m.argv(rb, 0)
             rep.check(r3, bool(calls_in(a0, r'DataLinkReceiver::next$')), 'reply-arg', 'reply() is given %s' % short(a0)[:100], m.loc(rb))
+
+    # the change-port rewrite is driven by attributes: they must be exactly the ones the request declares (C15-R4)
+    from rules import c15 as _c15
+    for key, ok_, det_, loc_ in _c15.attr_walk_checks(F):
+        rep.check(r2, ok_, 'stun:' + key, det_, loc_)
+
